@@ -80,6 +80,7 @@ type ByzHost struct {
 	Differs  bool   // the mutated bytes differ from the honest ones
 	Harness  string // harness-side problem (unknown kind, ...)
 	GenericN int    // number of leaves / slices the generic mutation could choose from
+	Greedy   bool   // the host counter-signed a revision other than the one it expected
 
 	done chan struct{}
 }
@@ -148,6 +149,30 @@ func (h *ByzHost) harness(msg string) {
 		h.Harness = msg
 	}
 	h.mu.Unlock()
+}
+
+// greedy models a host that counter-signs whatever the renter actually
+// signed as long as it pays the host at least as much: when the renter's
+// signature does not verify over the revision the host expects, the host looks
+// for the revision it does verify over among plausible alternatives (the same
+// RPC priced for other counts / amounts) and signs that one. A renter that
+// computes its payment from the wrong arguments therefore still "succeeds".
+func (h *ByzHost) greedy(prev types.V2FileContract, sig types.Signature, expected types.V2FileContract, candidates func() []types.V2FileContract) types.V2FileContract {
+	verifies := func(fc types.V2FileContract) bool {
+		return prev.RenterPublicKey.VerifyHash(h.CS.ContractSigHash(fc), sig)
+	}
+	if sig == (types.Signature{}) || verifies(expected) {
+		return expected
+	}
+	for _, fc := range candidates() {
+		if fc.HostOutput.Value.Cmp(expected.HostOutput.Value) >= 0 && verifies(fc) {
+			h.mu.Lock()
+			h.Greedy = true
+			h.mu.Unlock()
+			return fc
+		}
+	}
+	return expected
 }
 
 // contractKey is the host key of contracts this host forms.
@@ -721,6 +746,15 @@ func (h *ByzHost) handleRoots(s net.Conn) error {
 		h.rpcErr(s, err.Error())
 		return nil
 	}
+	rev = h.greedy(c.Rev, req.RenterSignature, rev, func() (l []types.V2FileContract) {
+		// the price depends on the 4 KiB bucket of 32 bytes x roots
+		for k := uint64(1); k <= req.Offset+req.Length+uint64(len(c.Roots))+512; k += 128 {
+			if fc, _, err := proto4.ReviseForSectorRoots(c.Rev, req.Prices, k); err == nil {
+				l = append(l, fc)
+			}
+		}
+		return
+	})
 	rev.RenterSignature = req.RenterSignature
 	rev.HostSignature = h.signer().SignHash(h.CS.ContractSigHash(rev))
 	off, ln := req.Offset, req.Length
@@ -910,6 +944,14 @@ func (h *ByzHost) handleAppend(s net.Conn) error {
 		return err
 	}
 	h.req(second)
+	rev = h.greedy(c.Rev, second.RenterSignature, rev, func() (l []types.V2FileContract) {
+		for k := uint64(0); k <= uint64(len(req.Sectors))+2; k++ {
+			if fc, _, err := proto4.ReviseForAppendSectors(c.Rev, req.Prices, resp.NewMerkleRoot, k); err == nil {
+				l = append(l, fc)
+			}
+		}
+		return
+	})
 	rev.RenterSignature = second.RenterSignature
 	rev.HostSignature = h.signer().SignHash(h.CS.ContractSigHash(rev))
 	third := &proto4.RPCAppendSectorsThirdResponse{HostSignature: rev.HostSignature}
@@ -1014,6 +1056,18 @@ func (h *ByzHost) handleFree(s net.Conn) error {
 		return err
 	}
 	h.req(second)
+	rev = h.greedy(c.Rev, second.RenterSignature, rev, func() (l []types.V2FileContract) {
+		for k := 0; k <= len(req.Indices)+3 && uint64(k) <= uint64(len(c.Roots)); k++ {
+			if fc, _, err := proto4.ReviseForFreeSectors(c.Rev, req.Prices, resp.NewMerkleRoot, k); err == nil {
+				// the file size the renter derives may be for another count than the price
+				for d := 0; d <= len(req.Indices)+3 && uint64(d) <= uint64(len(c.Roots)); d++ {
+					fc.Filesize = c.Rev.Filesize - proto4.SectorSize*uint64(d)
+					l = append(l, fc)
+				}
+			}
+		}
+		return
+	})
 	rev.RenterSignature = second.RenterSignature
 	rev.HostSignature = h.signer().SignHash(h.CS.ContractSigHash(rev))
 	third := &proto4.RPCFreeSectorsThirdResponse{HostSignature: rev.HostSignature}
@@ -1094,6 +1148,18 @@ func (h *ByzHost) handleFund(s net.Conn) error {
 		h.rpcErr(s, err.Error())
 		return nil
 	}
+	rev = h.greedy(c.Rev, req.RenterSignature, rev, func() (l []types.V2FileContract) {
+		amounts := []types.Currency{total.Mul64(2), total.Mul64(3), total.Add(types.NewCurrency64(1))}
+		for _, d := range req.Deposits {
+			amounts = append(amounts, total.Add(d.Amount))
+		}
+		for _, a := range amounts {
+			if fc, _, err := proto4.ReviseForFundAccounts(c.Rev, a); err == nil {
+				l = append(l, fc)
+			}
+		}
+		return
+	})
 	rev.RenterSignature = req.RenterSignature
 	rev.HostSignature = h.signer().SignHash(h.CS.ContractSigHash(rev))
 	resp := &proto4.RPCFundAccountsResponse{HostSignature: rev.HostSignature}
@@ -1219,6 +1285,18 @@ func (h *ByzHost) handleReplenish(s net.Conn, pools bool) error {
 		return err
 	}
 	h.req(second)
+	rev = h.greedy(c.Rev, second.RenterSignature, rev, func() (l []types.V2FileContract) {
+		amounts := []types.Currency{total.Mul64(2), total.Add(types.NewCurrency64(1))}
+		for j := uint64(1); j <= uint64(len(req.Accounts))+2; j++ {
+			amounts = append(amounts, req.Target.Mul64(j), total.Add(req.Target.Mul64(j)))
+		}
+		for _, a := range amounts {
+			if fc, _, err := proto4.ReviseForReplenish(c.Rev, a); err == nil {
+				l = append(l, fc)
+			}
+		}
+		return
+	})
 	rev.RenterSignature = second.RenterSignature
 	rev.HostSignature = h.signer().SignHash(h.CS.ContractSigHash(rev))
 	third := &proto4.RPCReplenishAccountsThirdResponse{HostSignature: rev.HostSignature}
